@@ -1,6 +1,6 @@
 (* C12 — JSON codec: decode (encode v) = defaults ∪ v, Python's json being a Section variable. *)
 From Coq Require Import List ZArith Bool Lia.
-From TskVerif Require Import Base.Common C12.Model C12.BytesProofs C12.RoundTripProofs C12.ValidProofs.
+From TskVerif Require Import Base.Common C12.Model C12.BytesProofs C12.Unfold C12.RoundTripProofs C12.ValidProofs.
 Import ListNotations.
 Open Scope Z_scope.
 
